@@ -111,13 +111,16 @@ func c22Describe(sp *spectypes.Spec) string {
 // ---------------------------------------------------------------------------------------------
 
 type c22RefApi struct {
-	own   bool
-	cands []*spectypes.Api // acceptable contents (own version, or the enabled versions of the imports)
+	own       bool
+	overrides bool             // own definition that differs from an enabled definition delivered by an import
+	sources   int              // direct imports that deliver an enabled definition of this name
+	cands     []*spectypes.Api // acceptable contents (own version, or the enabled versions of the imports)
 }
 
 type c22RefCol struct {
 	own     bool
 	enabled bool
+	sibling bool // this collection, or the same collection of an import, is built on sibling collections (intra-spec inheritance): which definition of an API name it ends up with is not stated by the property
 	apis    map[string]*c22RefApi
 	names   []string
 }
@@ -134,8 +137,6 @@ type c22Walker struct {
 	get      c22GetFn
 	visits   map[string]int
 	universe map[string][]*spectypes.Api // every API of every reachable raw spec, by name
-	override int
-	skippedC int
 	skippedA int
 }
 
@@ -160,6 +161,9 @@ func (w *c22Walker) ref(sp *spectypes.Spec, stack map[string]bool, depth int) *c
 			rc = &c22RefCol{own: true, enabled: c.Enabled, apis: map[string]*c22RefApi{}}
 			out.cols[c.CollectionData] = rc
 			out.keys = append(out.keys, c.CollectionData)
+		}
+		if len(c.InheritanceApis) > 0 {
+			rc.sibling = true
 		}
 		for _, a := range c.Apis {
 			if rc.apis[a.Name] == nil {
@@ -201,6 +205,7 @@ func (w *c22Walker) ref(sp *spectypes.Spec, stack map[string]bool, depth int) *c
 				out.keys = append(out.keys, k)
 				delete(out.disabled, k)
 			}
+			rc.sibling = rc.sibling || pc.sibling
 			for _, n := range pc.names {
 				pa := pc.apis[n]
 				var enabledCands []*spectypes.Api
@@ -210,17 +215,40 @@ func (w *c22Walker) ref(sp *spectypes.Spec, stack map[string]bool, depth int) *c
 					}
 				}
 				if len(enabledCands) == 0 {
+					w.skippedA++
 					continue // a disabled API of an import is not inherited
 				}
 				ra := rc.apis[n]
 				switch {
 				case ra == nil:
-					rc.apis[n] = &c22RefApi{cands: enabledCands}
+					rc.apis[n] = &c22RefApi{cands: enabledCands, sources: 1}
 					rc.names = append(rc.names, n)
 				case ra.own:
 					// the spec overrides the inherited API by name
+					for _, c := range enabledCands {
+						if !c.Equal(ra.cands[0]) {
+							ra.overrides = true
+						}
+					}
 				default:
 					ra.cands = append(ra.cands, enabledCands...)
+					ra.sources++
+				}
+			}
+		}
+	}
+	// intra-spec inheritance (add-on collections built on a sibling collection) may make one of the
+	// spec's own definitions take the place of an imported one of the same name: acceptable too
+	for _, k := range out.keys {
+		rc := out.cols[k]
+		for _, n := range rc.names {
+			if ra := rc.apis[n]; !ra.own {
+				for _, c := range sp.ApiCollections {
+					for _, a := range c.Apis {
+						if a.Name == n {
+							ra.cands = append(ra.cands, a)
+						}
+					}
 				}
 			}
 		}
@@ -337,11 +365,11 @@ func (s *Sim) c22CheckInput(ctx sdk.Context, where string, sp spectypes.Spec) bo
 			break
 		}
 	}
-	s.c22Compare(where, &sp, &first, ref, w)
+	s.c22Compare(ctx, where, &sp, &first, ref, w)
 	return true
 }
 
-func (s *Sim) c22Compare(where string, in, res *spectypes.Spec, ref *c22Ref, w *c22Walker) {
+func (s *Sim) c22Compare(ctx sdk.Context, where string, in, res *spectypes.Spec, ref *c22Ref, w *c22Walker) {
 	r := s.R
 	desc := func() string { return fmt.Sprintf("input: %s\nresult: %s", c22Describe(in), c22Describe(res)) }
 	// own API contents by name (intra-spec inheritance may legitimately bring a sibling's API)
@@ -362,25 +390,63 @@ func (s *Sim) c22Compare(where string, in, res *spectypes.Spec, ref *c22Ref, w *
 	// 1. no duplicates
 	resCols := map[spectypes.CollectionData]*spectypes.ApiCollection{}
 	resApis := map[spectypes.CollectionData]map[string]*spectypes.Api{}
+	type dupT struct {
+		key  spectypes.CollectionData
+		name string
+		sig  string
+	}
+	var dups []*dupT
+	viaImports := map[spectypes.CollectionData]map[string]bool{}
 	for _, c := range res.ApiCollections {
 		r.Check(resCols[c.CollectionData] == nil, "expansion-duplicate", "collection", "collection %s appears twice in the expansion of %s.\n%s", c22KeyStr(c.CollectionData), in.Index, desc())
 		resCols[c.CollectionData] = c
 		m := map[string]*spectypes.Api{}
 		for _, a := range c.Apis {
+			r.OracleEvals++
 			if prev := m[a.Name]; prev != nil {
 				// signature: the same (equal) imported definition delivered by two or more direct
 				// imports (diamond) and not overridden by the spec, vs. anything else
-				sig := "api"
-				if rc := ref.cols[c.CollectionData]; rc != nil && rc.apis[a.Name] != nil && !rc.apis[a.Name].own && len(rc.apis[a.Name].cands) >= 2 && prev.Equal(a) {
-					sig = "api:same-definition-via-several-imports"
+				d := &dupT{key: c.CollectionData, name: a.Name, sig: "api"}
+				if prev.Equal(a) && s.c22DeliveredBy(ctx, in, c.CollectionData, a) >= 2 {
+					d.sig = "api:same-definition-via-several-imports"
+					if viaImports[c.CollectionData] == nil {
+						viaImports[c.CollectionData] = map[string]bool{}
+					}
+					viaImports[c.CollectionData][a.Name] = true
 				}
-				r.Fail("expansion-duplicate", sig, "API %s appears twice in collection %s of the expansion of %s.\n%s", a.Name, c22KeyStr(c.CollectionData), in.Index, desc())
-				r.Probe("c22_known_duplicate_seen")
+				dups = append(dups, d)
 			}
-			r.OracleEvals++
 			m[a.Name] = a
 		}
 		resApis[c.CollectionData] = m
+	}
+	// an add-on collection copies the APIs of the sibling it is built on, duplicates included
+	for changed := true; changed; {
+		changed = false
+		for _, d := range dups {
+			if d.sig != "api" {
+				continue
+			}
+			for _, c := range in.ApiCollections {
+				if c.CollectionData != d.key {
+					continue
+				}
+				for _, sib := range c.InheritanceApis {
+					if viaImports[*sib][d.name] {
+						d.sig = "api:same-definition-via-several-imports"
+						if viaImports[d.key] == nil {
+							viaImports[d.key] = map[string]bool{}
+						}
+						viaImports[d.key][d.name] = true
+						changed = true
+					}
+				}
+			}
+		}
+	}
+	for _, d := range dups {
+		r.Fail("expansion-duplicate", d.sig, "API %s appears twice in collection %s of the expansion of %s.\n%s", d.name, c22KeyStr(d.key), in.Index, desc())
+		r.Probe("c22_known_duplicate_seen")
 	}
 	// 2. completeness + overrides
 	for _, k := range ref.keys {
@@ -412,28 +478,17 @@ func (s *Sim) c22Compare(where string, in, res *spectypes.Spec, ref *c22Ref, w *
 			}
 			if ra.own {
 				r.Check(a.Equal(ra.cands[0]), "override-lost", "api", "API %s in collection %s of %s: the expansion does not carry the spec's own definition (cu %d t %d enabled %v) but (cu %d t %d enabled %v).\n%s", n, c22KeyStr(k), in.Index, ra.cands[0].ComputeUnits, ra.cands[0].TimeoutMs, ra.cands[0].Enabled, a.ComputeUnits, a.TimeoutMs, a.Enabled, desc())
+				if ra.overrides {
+					r.Probe("c22_override_applied")
+				}
 			} else {
-				r.Check(equalsAny(a, ra.cands) || equalsAny(a, ownByName[n]), "inherited-api-altered", "api", "API %s in collection %s of %s is neither an imported enabled definition nor one of the spec's own (cu %d t %d enabled %v).\n%s", n, c22KeyStr(k), in.Index, a.ComputeUnits, a.TimeoutMs, a.Enabled, desc())
+				r.Check(equalsAny(a, ra.cands) || equalsAny(a, ownByName[n]) || (rc.sibling && equalsAny(a, w.universe[n])), "inherited-api-altered", "api", "API %s in collection %s of %s is neither an imported enabled definition nor one of the spec's own (cu %d t %d enabled %v).\n%s", n, c22KeyStr(k), in.Index, a.ComputeUnits, a.TimeoutMs, a.Enabled, desc())
 				r.Probe("c22_api_inherited")
 			}
 		}
 	}
-	// overrides that really happened: own API whose name an import also defines (enabled) differently
-	for _, k := range ref.keys {
-		rc := ref.cols[k]
-		if !rc.own {
-			continue
-		}
-		for _, n := range rc.names {
-			if ra := rc.apis[n]; ra.own {
-				for _, cand := range w.universe[n] {
-					if cand != ra.cands[0] && cand.Enabled && !cand.Equal(ra.cands[0]) {
-						r.Probe("c22_override_candidate")
-						break
-					}
-				}
-			}
-		}
+	if w.skippedA > 0 {
+		r.Probe("c22_disabled_api_not_inherited")
 	}
 	// 3. nothing that is switched off in the imports leaks in, nothing is invented
 	for _, c := range res.ApiCollections {
@@ -461,6 +516,35 @@ func (s *Sim) c22Compare(where string, in, res *spectypes.Spec, ref *c22Ref, w *
 			r.Probe("c22_disabled_collection_skipped")
 		}
 	}
+}
+
+// c22DeliveredBy counts the direct imports of in whose (lava-)expanded form carries an enabled
+// collection key with an enabled API equal to a. Only used to give a duplicate its signature.
+func (s *Sim) c22DeliveredBy(ctx sdk.Context, in *spectypes.Spec, key spectypes.CollectionData, a *spectypes.Api) int {
+	n := 0
+	for _, idx := range in.Imports {
+		p, ok := s.K.Spec.GetSpec(ctx, idx)
+		if !ok {
+			continue
+		}
+		exp, err := s.K.Spec.ExpandSpec(ctx, p)
+		if err != nil {
+			continue
+		}
+		for _, c := range exp.ApiCollections {
+			if c.CollectionData != key || !c.Enabled {
+				continue
+			}
+			for _, pa := range c.Apis {
+				if pa.Enabled && pa.Equal(a) {
+					n++
+					break
+				}
+			}
+			break
+		}
+	}
+	return n
 }
 
 // ---------------------------------------------------------------------------------------------
@@ -726,6 +810,37 @@ func (s *Sim) c22StoreBytes(ctx sdk.Context) string {
 	return b.String()
 }
 
+// c22ErrClass maps a lava error to a stable short class (for logs and probes only).
+func c22ErrClass(err error) string {
+	if err == nil {
+		return "ok"
+	}
+	msg := err.Error()
+	for _, c := range []struct{ sub, class string }{
+		{"import loops not allowed", "import-loop"},
+		{"imported spec unknown", "unknown-import"},
+		{"api defined twice", "api-defined-twice"},
+		{"compute units out or range", "cu-out-of-range"},
+		{"duplicate imported combinable", "conflicting-imports"},
+		{"try overwrite existing", "conflicting-imports"},
+		{"existing combinable", "conflicting-imports"},
+		{"incompatible inheritance", "incompatible-inheritance"},
+		{"did not find inheritingCollection", "addon-base-missing"},
+		{"circular dependency in inheritance", "addon-cycle"},
+		{"invalid inheriting collection", "addon-invalid"},
+		{"unsupported api interface", "bad-interface"},
+		{"missing tagged functions", "missing-parse-directives"},
+		{"api list cannot be empty", "empty"},
+		{"list empty", "empty"},
+		{"panic in tx", "panic"},
+	} {
+		if strings.Contains(msg, c.sub) {
+			return "ERR:" + c.class
+		}
+	}
+	return "ERR:other"
+}
+
 // c22DryRun executes the proposal on a throw-away cache context.
 func (s *Sim) c22DryRun(specs []spectypes.Spec) (snap c22Snapshot) {
 	cctx, _ := s.Ctx.CacheContext()
@@ -783,8 +898,12 @@ func (s *Sim) opC22Propose() {
 		out = "rejected"
 	}
 	r.Op("c22_propose", out)
-	r.Logf("   -> %s", short(res.Err))
+	// never log the raw error: lava's messages carry %#v pointers and map-ordered attributes
+	r.Logf("   -> %s", c22ErrClass(res.Err))
 	r.Probe("c22_propose_" + kind + "_" + out)
+	if res.Err != nil {
+		r.Probe("c22_rejected_" + strings.TrimPrefix(c22ErrClass(res.Err), "ERR:"))
+	}
 	if d1.specs != "panic" {
 		r.Check(d1.ok == (res.Err == nil), "nondeterministic-expansion", "proposal-verdict", "spec-add proposal: dry run ok=%v, real run err=%v. specs: %s", d1.ok, res.Err, strings.Join(descs, " ; "))
 		if res.Err == nil {
